@@ -1,7 +1,9 @@
 //! C13 (black box, no hook): the real `spawn_tcp_client_task_with_options` over loopback TCP with a
 //! recording, gating `Listener<ClientState>`.  Real time; assertions are on ORDER only.
 //!
-//! input line:  cap=<n> mt=<n|0> rmin=<ms> rmax=<ms> | <step> ...
+//! input line:  cap=<n> mt=<n|0> rmin=<ms> rmax=<ms> [chain=<builder calls>] | <step> ...
+//!   chain=<c,c,..>                            build the ClientOptions by these public builder calls in this order instead
+//!                                             of from cap / mt (syntax: clientoptions.rs; C12 options family)
 //!   env:<refuse|close|garbage|silent|serve>   how the peer treats connections from now on
 //!                                             (refuse = nothing listens on the port)
 //!   E D X L                                   Channel::enable / disable / shutdown / set_decode_level
@@ -149,8 +151,13 @@ async fn wait_until<F: Fn(&Shared) -> bool>(ctl: &Ctl, f: F) -> bool {
 async fn run_case(line: &str, case_no: usize) -> String {
     let (cfg, script) = line.split_once('|').expect("case needs a '|'");
     let mut kv: HashMap<&str, u64> = HashMap::new();
+    let mut chain: Option<&str> = None;
     for t in cfg.split_whitespace() {
         let (k, v) = t.split_once('=').expect("k=v");
+        if k == "chain" {
+            chain = Some(v); // the options are built by these public builder calls, in this order (see clientoptions.rs)
+            continue;
+        }
         kv.insert(k, v.parse().expect("number"));
     }
     let ctl: Ctl = Arc::new(Mutex::new(Shared::default()));
@@ -169,10 +176,13 @@ async fn run_case(line: &str, case_no: usize) -> String {
         }
     }
     let release = Arc::new(tokio::sync::Notify::new());
-    let options = ClientOptions::default()
-        .decode_level(DecodeLevel::nothing())
-        .max_queued_requests(kv["cap"] as usize)
-        .max_response_timeouts(std::num::NonZeroUsize::new(kv["mt"] as usize));
+    let options = match chain {
+        Some(c) => super::clientoptions::build(c),
+        None => ClientOptions::default()
+            .decode_level(DecodeLevel::nothing())
+            .max_queued_requests(kv["cap"] as usize)
+            .max_response_timeouts(std::num::NonZeroUsize::new(kv["mt"] as usize)),
+    };
     let retry = rodbus::doubling_retry_strategy(Duration::from_millis(kv["rmin"]), Duration::from_millis(kv["rmax"]));
     let (channel, task) = rodbus::client::create_tcp_client_task_with_options(
         HostAddr::ip(addr.ip(), addr.port()),
